@@ -389,7 +389,7 @@ def check_distribution(ctx: Ctx, fi: FuncInfo) -> None:
     ok = len(loops) == 1 and unparse(loops[0].iter) == f"{counter[0]}.items()" and len(loops[0].body) == 1
     if ok:
         k, v = [unparse(e) for e in loops[0].target.elts]
-        ok = unparse(loops[0].body[0]).replace(" ", "").endswith(f"[{k}]={v}")
+        ok = isinstance(loops[0].body[0], ast.Assign) and unparse(loops[0].body[0]).replace(" ", "").endswith(f"[{k}]={v}")
     if not ok:
         ctx.violation("C11-Q1", fi, loops[0] if loops else fi.node, "the result list is not filled with every (value, multiplicity) of the counter: the distribution would not sum to the size of the class")
         return
